@@ -505,34 +505,29 @@ def w13(ctx, rid):
 
 def w15(ctx, rid):
     """a tool run that reports success has produced an output blob: recovery of any input - also one without a single intact
-    record - leaves a blob that validates (header written), and in-place recovery does not end with the original path missing"""
+    record - leaves a blob that validates (header written), and in-place recovery does not end with the original path missing.
+    Decided with must-summaries, so the creation may live in a helper."""
     prog = ctx.prog
     f = prog.fns.get('tools::utils::process_blob_with')
     if f is None:
         raise core.AnchorLost('process_blob_with')
-    creates = [c for c in f.calls if any(t == 'tools::blob_writer::BlobWriter::from_path' for t in prog.resolve(c))]
-    if not creates:
-        raise core.AnchorLost('BlobWriter::from_path call')
-    # every success of the tool has produced an output blob (header written): no ok return around the writer
     key2 = 'output-always-produced|tools::utils::process_blob_with'
-    wh = [c for c in f.calls if c.name == 'write_header' and 'BlobWriter' in c.path]
-    need = [core.ok_block(f, c) for c in creates + wh]
-    if not wh or any(x is None for x in need):
-        raise core.AnchorLost('BlobWriter::write_header call / ok edges in process_blob_with')
-    oks = [bb for (bb, k, _) in core.exit_defs(f) if k == 'ok']
+    S1 = core.Summ(prog, lambda c: any(t == 'tools::blob_writer::BlobWriter::from_path' for t in prog.resolve(c)))
+    S2 = core.Summ(prog, lambda c: c.name == 'write_header' and 'BlobWriter' in c.path)
+    if not [c for g in prog.fns.values() if g.file.startswith('src/tools/') for c in g.calls if S1.pred(c)] or \
+       not [c for g in prog.fns.values() if g.file.startswith('src/tools/') for c in g.calls if S2.pred(c)]:
+        raise core.AnchorLost('BlobWriter::from_path / write_header calls in src/tools')
+    oks = [bb for (bb, k, _) in core.exit_defs(f) if k in ('ok', 'fwd')]
     if not oks:
         raise core.AnchorLost('ok return of process_blob_with')
-    around = None
-    for nb in need:
-        free = f.reach_from([0], avoid_enter=[nb])
-        hit = [bb for bb in oks if bb in free]
-        if hit:
-            around = hit[0]
-    if around is not None:
-        ctx.bad(rid, key2, f.where(around), 'process_blob_with can return Ok without having created the output blob and written its header: '
-                'recovery / migration of such an input reports success and leaves no (valid) output')
+    missing = [n for (n, S) in (('BlobWriter::from_path', S1), ('BlobWriter::write_header', S2)) if not S.must(f.id)]
+    if missing:
+        around = f.reach_from([0], avoid_enter=set(S1.events(f)) if 'BlobWriter::from_path' in missing else set(S2.events(f)))
+        hit = [bb for bb in oks if bb in around]
+        ctx.bad(rid, key2, f.where(hit[0] if hit else None), 'process_blob_with can return Ok without a completed %s: '
+                'recovery / migration of such an input reports success and leaves no (valid) output' % ' / '.join(missing))
     else:
-        ctx.ok(rid, key2, creates[0].where(), 'all %d ok return(s) pass the ok edges of BlobWriter::from_path and write_header' % len(oks))
+        ctx.ok(rid, key2, f.where(), 'all %d ok return(s) pass a successful BlobWriter::from_path and write_header' % len(oks))
 
 
 def w16(ctx, rid):
